@@ -622,3 +622,41 @@ Print Assumptions C04_legacy8_translated_bucket_hash_is_the_model.
 Print Assumptions C04_legacy8_translated_entry_hash_mask.
 Print Assumptions C04_legacy8_translated_uintLe_is_le_dec.
 Print Assumptions C04_legacy8_translated_eytzinger_is_the_model.
+
+(* ---------- (Bucket).Lookup — the whole lookup of a key inside a bucket (query.go) — translated on every check
+   (Generated/GoLiteLkC04.v): hash of the key (BucketHeader.Hash over EntryHash64), then searchEytzinger whose getter
+   is b.loadEntry. The translator records what is passed for the getter (first lemma); the theorem interprets the
+   getter oracle as exactly that: the translated loadEntry run over the bucket's section reader on the index file.
+   For EVERY file (complete or cut anywhere), bucket position, entry count, value size, hash domain and key, Lookup
+   returns what the model's search over the model's entry loader returns (CI.search_get over CI.load_entry: the core
+   of CI.lookup, which the C04 theorems are about): the value, ErrNotFound, or the read error. ---------- *)
+Require YF.Generated.GoLiteLkC04 YF.GoLiteC04_Lookup YF.GoLiteC13_Load.
+
+Lemma C04_translated_Lookup_passes_loadEntry_as_getter :
+  GoLiteLkC04.binding_Bucket_Lookup_getter = ("searchEytzinger"%string, "getter"%string, "Bucket.loadEntry(b)"%string).
+Proof. reflexivity. Qed.
+
+Theorem C04_translated_bucket_Lookup_is_the_models_search :
+  forall (hash : N -> list N -> N), (forall d k, (hash d k < 18446744073709551616)%N) ->
+  forall (file : list N) (off n vs : nat) (d : N), 1 <= vs <= 252 -> (Z.of_nat n < 4294967296)%Z ->
+  forall (rest : list (string * GoLite.val)) (entries : GoLite.val) (key : list N) f, n + 1 < f ->
+  GoLite.call GoLiteLkC04.prog (GoLiteC04_Lookup.ext_lk hash file off n vs d rest entries) f "Bucket.Lookup"%string
+    [GoLiteC04_Lookup.bv n vs d rest entries; GoLite.VInts (map Z.of_N key)] =
+  GoLiteC04_Search.enc (CI.search_get (f - 1) (CI.load_entry vs file off) n (hash d key mod 16777216)%N 0).
+Proof. exact GoLiteC04_Lookup.Lookup_is_search. Qed.
+
+(* the translated Lookup RUNS: a 3-entry bucket in search-tree order (hashes 5 | 2 9, one value byte each), the key's
+   hash fixed by the oracle: found; on the file cut inside the last entry the same key is a read error, not "not found" *)
+Example C04_translated_bucket_Lookup_runs :
+  let file := ([5; 0; 0; 50] ++ [2; 0; 0; 20] ++ [9; 0; 0; 90])%N in
+  let run := fun (h : N) (fl : list N) =>
+    GoLite.call GoLiteLkC04.prog (GoLiteC04_Lookup.ext_lk (fun _ _ => h) fl 0 3 1 7%N [] GoLite.VNil) 10 "Bucket.Lookup"%string
+      [GoLiteC04_Lookup.bv 3 1 7%N [] GoLite.VNil; GoLite.VInts [1; 2; 3]%Z] in
+  run 9%N file = GoLite.RRet (GoLite.VTuple [GoLite.VInts [90%Z]; GoLite.VNil]) /\
+  run 2%N file = GoLite.RRet (GoLite.VTuple [GoLite.VInts [20%Z]; GoLite.VNil]) /\
+  run 4%N file = GoLite.RRet (GoLite.VTuple [GoLite.VInts []; GoLite.VErr "ErrNotFound"%string]) /\
+  run 9%N (firstn 10 file) = GoLite.RRet (GoLite.VTuple [GoLite.VInts []; GoLite.VErr "read"%string]) /\
+  run 2%N (firstn 10 file) = GoLite.RRet (GoLite.VTuple [GoLite.VInts [20%Z]; GoLite.VNil]).
+Proof. vm_compute. repeat split; reflexivity. Qed.
+
+Print Assumptions C04_translated_bucket_Lookup_is_the_models_search.
